@@ -448,6 +448,7 @@ class Runner:
         self.cache = {}
         self.crashes = 0
         self.runs = 0
+        self.crash_limit = 1 << 30
 
     def _start(self):
         fd, self.errpath = tempfile.mkstemp(prefix="aqc04err-")
@@ -490,6 +491,8 @@ class Runner:
             return
         if not getattr(self, "pool", None):
             self.pool = [Runner(self.build, self.trace) for _ in range(workers)]
+            for r in self.pool:
+                r.crash_limit = max(1, self.crash_limit // workers)
         pool = self.pool
         workers = len(pool)
 
@@ -511,6 +514,8 @@ class Runner:
         key = json.dumps(case, sort_keys=True)
         if key in self.cache:
             return self.cache[key]
+        if self.crashes >= self.crash_limit and case.get("kind") != "conn":
+            return {"skipped": True}      # too many aborts already: each one costs a sanitizer start-up
         if self.p is None or self.p.poll() is not None:
             self._stop()
             self._start()
@@ -829,6 +834,8 @@ class CallSuite:
                 sig = {"site": "Buffer_init", "via": "Buffer()", "access": "malloc-unchecked"}
                 return self._once(sig, "Buffer(capacity=%d) returned an object (malloc failure / negative size not detected)" % cap)
         a = self.asan.run(dict(case, kind="call"))
+        if a.get("skipped"):
+            return None
         if a.get("crash"):
             rep = a.get("report", {})
             sig = {"site": rep.get("function", fn), "via": "direct-call", "sanitizer": rep.get("asan") or rep.get("ubsan")}
@@ -1074,7 +1081,12 @@ class BufSuite:
 
     def oracle(self, case):
         rb = self.ref(case)
-        runs = [("checked", self.chk.run(dict(case, kind="bufseq"))), ("asan", self.asan.run(dict(case, kind="bufseq")))]
+        r0 = self.chk.run(dict(case, kind="bufseq"))
+        runs = [("checked", r0)]
+        if "VERIF_BOUNDS" not in json.dumps(r0):
+            ra = self.asan.run(dict(case, kind="bufseq"))
+            if not ra.get("skipped"):
+                runs.append(("asan", ra))
         for which, r in runs:
             if r.get("crash"):
                 rep = r.get("report", {})
@@ -1385,6 +1397,7 @@ def setup_builds(ctx):
     chk_b, asan_b = box["checked"], box["asan"]
     chk = Runner(chk_b, trace=True)
     asan = Runner(asan_b)
+    asan.crash_limit = 12
     chk.quiet = Runner(chk_b, trace=False)     # same build, tracing off: connection scenarios
     return g, model, chk_b, asan_b, chk, asan
 
@@ -1428,7 +1441,7 @@ def run(ctx):
         bcases = corr.load_corpus("C04", "c04-buffer-seq") + gen_buf_exhaustive(ctx.thorough)
         bcases += [gen_buf_case(ctx.rng, small=(i % 3 == 0)) for i in range(ctx.n(1500, 40000))]
         chk.prefetch([dict(c, kind="bufseq") for c in bcases], w)
-        asan.prefetch([dict(c, kind="bufseq") for c in bcases], w)
+        asan.prefetch([dict(c, kind="bufseq") for c in bcases if "VERIF_BOUNDS" not in json.dumps(chk.run(dict(c, kind="bufseq")))], w)
         bs.suite.run(bcases)
 
         phases["buffer"] = round(time.time() - tp, 1)
